@@ -11,7 +11,7 @@ from .common import raising_site
 
 from ndn import appv2, app as appv1, types
 from ndn.encoding import make_interest, make_data, InterestParam, MetaInfo
-from ndn.security import KeychainDigest, DigestSha256Signer
+from ndn.security import KeychainDigest, DigestSha256Signer, union_checker
 
 RULE = ('Data side: every validator verdict (all ValidResult values / truthiness) x validator latency {0, <, =, > deadline} '
         'x both front-ends; Interest side: {ApplicationParameters absent/empty/non-empty} x {unsigned, DigestSha256, HMAC, '
@@ -103,7 +103,10 @@ def as_object(fn):
 def run_data_case(ctx, fe, verdict, L, t_data, lat, await_at=0, implicit=False, falsy_obj=False):
     obs = {}
     vlog = []
-    name = [C(b'd'), C(b'x')]
+    # the name space of the Data (the application's own, the local forwarder's management names, link-local names) is no input of
+    # the rule either
+    name = [[C(b'd'), C(b'x')], [C(b'localhost'), C(b'nfd'), C(b'status'), C(b'general')], [C(b'd'), C(b'x')], [C(b'localhop'), C(b'nfd'), C(b'rib'), C(b'list')],
+            [C(b'd'), C(b'x')], [C(b'localhost'), C(b'nfd'), C(b'faces'), C(b'events'), rc.comp(0x3a, b'\x07')], [C(b'ndn'), C(b'KEY'), C(b'k')]][(CT_SEQ[0] + 1) % 7]
     # the Data's ContentType (BLOB, LINK, KEY, application-level NACK, absent, an unassigned number) is no input of validation
     CT_SEQ[0] += 1
     ct = [0, 3, 2, 1, None, 3, 1024, 3][CT_SEQ[0] % 8]
@@ -133,8 +136,23 @@ def run_data_case(ctx, fe, verdict, L, t_data, lat, await_at=0, implicit=False, 
                 return give(fe, verdict)
             # (asking for the raw packet as well is no input of validation)
             CT_SEQ[0] += 1
-            coro = the_app.express_interest(iname, validator=as_object(validator) if falsy_obj else validator, lifetime=L, nonce=1,
-                                            need_raw_packet=(CT_SEQ[0] % 3 == 0))
+            the_validator = as_object(validator) if falsy_obj else validator
+            if CT_SEQ[0] % 4 in (1, 2):
+                # the validator supplied is a chain built with the library's own combinator: it accepts only when every member accepts,
+                # whatever the members after a refusing one say
+                async def yes(n, sig):
+                    vlog.append(('member-yes', S.now_ms()))
+                    return True
+                the_validator = union_checker(the_validator, yes) if CT_SEQ[0] % 4 == 1 else union_checker(yes, the_validator, yes)
+                obs['chain'] = True
+            if CT_SEQ[0] % 5 == 3:
+                # the validator in force is the application-wide one: the Interest names none of its own
+                the_app.data_validator = the_validator
+                obs['app-wide'] = True
+                coro = the_app.express_interest(iname, lifetime=L, nonce=1, need_raw_packet=(CT_SEQ[0] % 3 == 0))
+            else:
+                coro = the_app.express_interest(iname, validator=the_validator, lifetime=L, nonce=1,
+                                                need_raw_packet=(CT_SEQ[0] % 3 == 0))
 
         async def waiter():
             if await_at:
@@ -169,6 +187,15 @@ def run_data_case(ctx, fe, verdict, L, t_data, lat, await_at=0, implicit=False, 
         ctx.event('data-fetched-by-full-name')
     if falsy_obj:
         ctx.event('validator-is-a-falsy-callable-object')
+    if obs.get('app-wide'):
+        ctx.event('validator-is-the-application-wide-one')
+        w['validator_set_as'] = 'app.data_validator'
+    if name[0] != C(b'd'):
+        ctx.event('data-under-' + bytes(name[0][2:]).decode())
+    w['name'] = rc.name_to_uri(name) if hasattr(rc, 'name_to_uri') else [bytes(c).hex() for c in name]
+    if obs.get('chain'):
+        ctx.event('validator-is-a-chain-of-the-library-combinator')
+        w['validator'] = 'union_checker(...) with accepting members after the deciding one'
     ctx.case(('data', fe, repr(verdict), L, t_data, lat, await_at, implicit), nontrivial=True, sample=w if ctx.evaluations % 60 == 0 else None)
     ctx.event(f'data-{rel}-deadline')
     if await_at:
